@@ -1,5 +1,5 @@
 import McpModel.Base.Proto
-import McpModel.OAuth.Model
+import McpModel.OAuth.Monitor
 import McpModel.OAuth.Challenge
 /-!
 Driver for E11 (C15).
@@ -15,7 +15,10 @@ Flow records:   `auth st=… cimd=… pre=… dcr=… u=<url> hm=… ch=… hdr=
                 world of the record, prints the same form, and evaluates the C15 monitor on the
                 IMPLEMENTATION's observation (request log, outcome, token source changed?) — the monitor
                 uses only the specification predicates, the scripted world of the round and what the
-                implementation did in earlier rounds of the case, never `authorize`.
+                implementation did in earlier rounds of the case, never `authorize`.  The monitor is
+                the typed `monitor` of Monitor.lean (bridged to the model by Bridge.lean, to the
+                property clauses by Sound.lean); this file is the string layer: token parser,
+                renderer, clause texts (`Clause.text`).
 Parser records: `www <hex> <hex> …` (one token per header value) observation `err` | `ok <challenge>…`;
                 `wwwfuzz <hex>` (arbitrary bytes) observation `nopanic`.
 -/
@@ -131,15 +134,9 @@ def parseChallenge (t : String) : Option (Challenge × String) :=
     some ({ bearer := b == "b", resourceMetadata := ← parseUrl rm, error := err }, hexs)
   | _ => none
 
+/-- A parsed flow record: the typed round the monitor reads (`m`), and the string-level extras. -/
 structure Case where
-  cfg : Config
-  inp : Input
-  world : World
-  prmTab : List (Url × Resp PrmDoc)
-  asmTab : List (Url × Resp AsmDoc)
-  tokTab : List (Url × List TokResp)
-  regTab : List (Url × RegResp)
-  fetch : FetchAnswer
+  m : MCase
   hdr : Option (List String)           -- rendered header values (hex), for the parser cross-check
   chHex : List String
 
@@ -172,16 +169,10 @@ def parseCase (over : Option HConfig) (toks : List String) : Option Case := do
   let tokTab ← parseMap (fun s => (s.splitOn ",").mapM parseTokResp) (← get "tok")
   let f ← parseFetch (← get "f")
   let hdr : Option (List String) := (get "hdr").map fun h => if h == "." then [] else h.splitOn ","
-  let world : World := {
-    prm := fun _ x => (prmTab.lookup x).getD .status4xx
-    asm := fun _ x => (asmTab.lookup x).getD .status4xx
-    reg := fun x => (regTab.lookup x).getD .fail
-    tok := fun i x => ((tokTab.lookup x).getD []).getD i .fail
-    fetch := fun _ => f }
-  some { cfg := hc.at u,
-         inp := { status403 := st == "403", headerMalformed := hm == "1", challenges := chs.map (·.1) },
-         world := world, prmTab := prmTab, asmTab := asmTab, tokTab := tokTab, regTab := regTab, fetch := f, hdr := hdr,
-         chHex := chs.map (·.2) }
+  some { m := { cfg := hc.at u,
+                inp := { status403 := st == "403", headerMalformed := hm == "1", challenges := chs.map (·.1) },
+                tabs := { prm := prmTab, asm := asmTab, tok := tokTab, reg := regTab, fetch := f } },
+         hdr := hdr, chHex := chs.map (·.2) }
 
 /-! ### Observations -/
 
@@ -197,25 +188,13 @@ def showEvent : Event → String
   | .fetch u c r => s!"F:{showUrl u}:{showCred c}:{showUrl r}"
   | .token u c => s!"T:{showUrl u}:{showCred c}"
 
-def showOutcome : Outcome → String
-  | .ok => "ok" | .skip => "ok" | .hdr => "hdr" | .noas => "noas"
-  | .asmUrl => "asm-url" | .asmFetch => "asm-fetch" | .asmIssuer => "asm-issuer" | .asmPkce => "asm-pkce" | .asmField => "asm-field"
-  | .preIss => "pre-iss" | .reg => "reg" | .noReg => "no-reg"
-  | .fetch => "fetch" | .state => "state" | .issMissing => "iss-missing" | .issMismatch => "iss-mismatch" | .issUnexpected => "iss-unexpected"
-  | .exch => "exch" | .post => "post"
-
 def showServed : Served → String
   | .initial => "i"
   | .round n => toString n
 
 def showResult (r : Result) (cur : Served) : String :=
   let lg := if r.log.isEmpty then "." else ",".intercalate (r.log.map showEvent)
-  s!"out={showOutcome r.outcome} inst={if r.installed then 1 else 0} cur={showServed cur} log={lg}"
-
-structure Obs where
-  out : String
-  inst : Bool
-  events : List Event
+  s!"out={outName r.outcome} inst={if r.installed then 1 else 0} cur={showServed cur} log={lg}"
 
 def parseEvent (t : String) : Option Event :=
   match t.splitOn ":" with
@@ -233,138 +212,25 @@ def parseObs (s : String) : Option Obs := do
   let evs ← if lg == "." then some [] else (lg.splitOn ",").mapM parseEvent
   some { out := out, inst := inst == "1", events := evs }
 
-/-! ### The C15 monitor (specification predicates only) -/
+/-! ### Clause texts (the monitor itself is Monitor.lean) -/
 
-def isAsWk : Wk → Bool
-  | .asOAuth | .asOIDC | .asOAuthIns | .asOIDCIns | .asOIDCApp => true
-  | _ => false
-
-/-- If `u` is an authorization-server metadata location, the issuer URL it was derived from. -/
-def asBase : Url → Option Url
-  | .at o s k ds =>
-    match ds.getLast? with
-    | some d => if isAsWk d then some (.at o s k ds.dropLast) else none
-    | none => none
-  | _ => none
-
-/-- SPEC: an identifier a client may contact or show: not script-capable, https or loopback. -/
-def safeUrl (u : Url) : Bool := !u.isScript && u.httpsOrLoopback
-
-def specPrmOk (d : PrmDoc) (res : Url) : Bool :=
-  d.resource == res && d.authServers.all fun a => a == .empty || safeUrl a
-
-def specAsmOk (d : AsmDoc) (issuer : Url) : Bool :=
-  issuersEqual d.issuer issuer && d.pkce &&
-  ([d.authorizationEndpoint, d.tokenEndpoint, d.registrationEndpoint, d.introspectionEndpoint] ++ d.otherUrls).all
-    (fun x => x == .empty || (!x.isScript && match x with | .bad _ => false | _ => true)) &&
-  [d.authorizationEndpoint, d.tokenEndpoint, d.registrationEndpoint, d.introspectionEndpoint].all
-    (fun x => x == .empty || x.httpsOrLoopback)
-
-def firstSome {α β} (f : α → Option β) : List α → Option β
-  | [] => none
-  | a :: t => match f a with
-    | some b => some b
-    | none => firstSome f t
-
-/-- `hist`: issuers at which EARLIER rounds of this handler registered dynamically (as observed).
-Returns the violated clause and the issuers at which THIS round registered. -/
-def monitor (c : Case) (hist : List Url) (o : Obs) : Option String × List Url :=
-  let U := c.cfg.serverUrl
-  let ch := rmFrom c.inp.challenges
-  let reqs := o.events.filter Event.isRequest
-  let gets := o.events.filterMap fun e => match e with | .get _ u => some u | _ => none
-  -- (1) every request goes to an https or loopback URL
-  let c1 := firstSome (fun (e : Event) =>
-      if e.url.httpsOrLoopback then none
-      else match e with
-        | .token .empty _ => some "C15: requests_https_or_loopback: token request issued to an EMPTY token_endpoint (metadata without the REQUIRED endpoint was accepted)"
-        | _ => some s!"C15: requests_https_or_loopback: {showEvent e} is neither https nor loopback") reqs
-  -- (2) no script-capable scheme requested or shown, unless the server URL itself has one / it is the challenge's own URL
-  let c2 := firstSome (fun (e : Event) =>
-      if e.url.isScript && !U.isScript && !(e == .get .prm ch) then
-        some s!"C15: no_script_scheme_used: {showEvent e} has a script-capable scheme"
-      else none) o.events
-  -- (3) the authorization server contacted is the fall-back or comes from a valid PRM document that was fetched
-  let bases := (gets.filterMap asBase).eraseDups
-  let prmJust := fun (I : Url) =>
-    I == U.root || (prmCandidates ch U).any fun (m, res) =>
-      gets.contains m && match c.prmTab.lookup m with
-        | some (.doc d) => specPrmOk d res && d.authServers.head? == some I
-        | _ => false
-  let c3 := firstSome (fun I => if prmJust I then none else
-      some s!"C15: prm_used_only_if_resource_matches: authorization server {showUrl I} comes from no valid protected-resource metadata") bases
-  let c3r := firstSome (fun (e : Event) => match e with
-      | .fetch _ _ r => if r == U || r == U.root then none else
-          some s!"C15: prm_used_only_if_resource_matches: resource parameter {showUrl r} is not the server's"
-      | _ => none) o.events
-  -- (4) endpoints in use are backed by a valid metadata document of that issuer, or by the fall-back after 4xx everywhere
-  let I? := bases.getLast?
-  let asmDocs : List AsmDoc := match I? with
-    | none => []
-    | some I =>
-      let mine := gets.filter fun m => asBase m == some I
-      let docs := mine.filterMap fun m => match c.asmTab.lookup m with
-        | some (.doc d) => if specAsmOk d I then some d else none
-        | _ => none
-      let all4xx := mine.length == (asmCandidates I).length && mine.all fun m =>
-        match (c.asmTab.lookup m).getD .status4xx with
-        | .status4xx => true
-        | _ => false
-      docs ++ (if all4xx then [fallbackAsm I] else [])
-  let used : List (String × Url) := o.events.filterMap fun e => match e with
-    | .fetch u _ _ => some ("authorization_endpoint", u)
-    | .register u => some ("registration_endpoint", u)
-    | .token u _ => some ("token_endpoint", u)
-    | _ => none
-  let roleOf := fun (d : AsmDoc) (r : String) =>
-    if r == "authorization_endpoint" then d.authorizationEndpoint
-    else if r == "registration_endpoint" then d.registrationEndpoint else d.tokenEndpoint
-  let eff := asmDocs.filter fun d => used.all fun (r, x) => roleOf d r == x
-  let c4 := if used.isEmpty || !eff.isEmpty then none else
-    some "C15: asm_used_only_if_issuer_matches_and_pkce: an endpoint in use is not backed by valid authorization-server metadata (issuer match, PKCE, safe URLs) nor by the 4xx fall-back"
-  -- (5) code exchanged only if the state matches and the RFC 9207 check passes
-  let hasTok := o.events.any fun e => match e with | .token _ _ => true | _ => false
-  let c5 := if !hasTok then none else
-    match c.fetch with
-    | .err => some "C15: exchange_requires_state_and_iss: token request although the fetcher failed"
-    | .result sm iss =>
-      if !sm then some "C15: exchange_requires_state_and_iss: token request although the returned state differs from the generated one"
-      else if eff.isEmpty then none   -- already reported by (4)
-      else if eff.any fun d => issCheck iss d.issuer d.issParamSupported then none
-      else some "C15: exchange_requires_state_and_iss: token request although the RFC 9207 iss check fails"
-  -- (6) pre-registered credentials bound to an issuer
-  let usesPre := o.events.any fun e => e.cred == .pre
-  let c6 := if !usesPre then none else
-    match c.cfg.pre with
-    | none => some "C15: preregistered_issuer_binding: pre-registered credentials used but none configured"
-    | some pi =>
-      if pi == .empty || eff.isEmpty then none
-      else if eff.any fun d => issuersEqual pi d.issuer then none
-      else some "C15: preregistered_issuer_binding: credentials registered for another issuer were presented"
-  -- (6b) credentials of the other modes: configured, and presented only to the server that issued them
-  let registeredNow := fun (d : AsmDoc) => o.events.any fun e => match e with
-    | .register u => u == d.registrationEndpoint && (match c.regTab.lookup u with
-        | some (.created true _) => true
-        | _ => false)
-    | _ => false
-  let usesDcr := o.events.any fun e => e.cred == .dcr
-  let c6d := if !usesDcr then none
-    else if !c.cfg.dcr then some "C15: registered_credentials_bound_to_issuer: dynamically registered credentials used but dynamic registration is not configured"
-    else if eff.isEmpty then none
-    else if eff.any fun d => registeredNow d || hist.any (issuersEqual · d.issuer) then none
-    else some "C15: registered_credentials_bound_to_issuer: dynamically registered credentials presented to an authorization server that did not issue them (no successful registration there in this round or an earlier one)"
-  let c6c := if (o.events.any fun e => e.cred == .cimd) && !c.cfg.cimd then
-      some "C15: registered_credentials_bound_to_issuer: a client-id metadata document URL is used but none is configured"
-    else none
-  -- (7) no installation on failure
-  let goodTok := o.events.any fun e => match e with
-    | .token u _ => ((c.tokTab.lookup u).getD []).any fun r => r != .fail
-    | _ => false
-  let c7 := if o.inst && !(o.out == "ok" || o.out == "post") then
-      some s!"C15: failed_check_installs_nothing: Authorize returned {o.out} but installed a token source"
-    else if o.inst && !goodTok then some "C15: failed_check_installs_nothing: token source installed without a successful exchange"
-    else none
-  (c1 <|> c2 <|> c3 <|> c3r <|> c4 <|> c5 <|> c6 <|> c6d <|> c6c <|> c7, (eff.filter registeredNow).map (·.issuer))
+def Clause.text : Clause → String
+  | .httpsEmptyToken => "C15: requests_https_or_loopback: token request issued to an EMPTY token_endpoint (metadata without the REQUIRED endpoint was accepted)"
+  | .https e => s!"C15: requests_https_or_loopback: {showEvent e} is neither https nor loopback"
+  | .script e => s!"C15: no_script_scheme_used: {showEvent e} has a script-capable scheme"
+  | .prmIssuer I => s!"C15: prm_used_only_if_resource_matches: authorization server {showUrl I} comes from no valid protected-resource metadata"
+  | .prmResource r => s!"C15: prm_used_only_if_resource_matches: resource parameter {showUrl r} is not the server's"
+  | .asm => "C15: asm_used_only_if_issuer_matches_and_pkce: an endpoint in use is not backed by valid authorization-server metadata (issuer match, PKCE, safe URLs) nor by the 4xx fall-back"
+  | .exchFetcher => "C15: exchange_requires_state_and_iss: token request although the fetcher failed"
+  | .exchState => "C15: exchange_requires_state_and_iss: token request although the returned state differs from the generated one"
+  | .exchIss => "C15: exchange_requires_state_and_iss: token request although the RFC 9207 iss check fails"
+  | .preNone => "C15: preregistered_issuer_binding: pre-registered credentials used but none configured"
+  | .preOther => "C15: preregistered_issuer_binding: credentials registered for another issuer were presented"
+  | .dcrNotConfigured => "C15: registered_credentials_bound_to_issuer: dynamically registered credentials used but dynamic registration is not configured"
+  | .dcrForeign => "C15: registered_credentials_bound_to_issuer: dynamically registered credentials presented to an authorization server that did not issue them (no successful registration there in this round or an earlier one)"
+  | .cimdNotConfigured => "C15: registered_credentials_bound_to_issuer: a client-id metadata document URL is used but none is configured"
+  | .instOutcome out => s!"C15: failed_check_installs_nothing: Authorize returned {out} but installed a token source"
+  | .instNoExchange => "C15: failed_check_installs_nothing: token source installed without a successful exchange"
 
 /-! ### Challenge parser records -/
 
@@ -397,10 +263,10 @@ def hdrConsistent (c : Case) : Bool :=
     | none => false
     | some hs =>
       match Challenge.parseHeaders (hs.map String.toList) with
-      | none => c.inp.headerMalformed
+      | none => c.m.inp.headerMalformed
       | some ps =>
-        !c.inp.headerMalformed && ps.length == c.inp.challenges.length &&
-        (List.zip ps (List.zip c.inp.challenges c.chHex)).all fun (p, ch, hx) =>
+        !c.m.inp.headerMalformed && ps.length == c.m.inp.challenges.length &&
+        (List.zip ps (List.zip c.m.inp.challenges c.chHex)).all fun (p, ch, hx) =>
           (String.ofList p.scheme == "bearer") == ch.bearer &&
           hexL (p.get "resource_metadata") == hx &&
           (hx == "") == (ch.resourceMetadata == .empty) &&
@@ -417,11 +283,16 @@ structure HState where
 
 def roundStep (st : HState) (c : Case) (impl : String) : Option HState × Verdict :=
   if !hdrConsistent c then (some st, { model := "model-header-mismatch" }) else
-  let (h', r) := st.h.authorize { serverUrl := c.cfg.serverUrl, inp := c.inp, world := c.world }
+  if !c.m.wf then (some st, { model := "bad-op" }) else   -- outside the domain of `monitor_accepts_model`
+  let (h', r) := st.h.authorize { serverUrl := c.m.cfg.serverUrl, inp := c.m.inp, world := c.m.tabs.world }
+  let modelText := showResult r h'.served
+  -- run-time self-check of the string layer: the model's text parses back to the typed observation the
+  -- bridge theorems are about (`monitor_accepts_model` is a statement about `obsOf r`)
+  if parseObs modelText != some (obsOf r) then (some st, { model := "model-render-mismatch" }) else
   let (viol, regd) := match parseObs impl with
     | none => (some "C15: unparsable observation", [])
-    | some o => monitor c st.dcrIssuers o
-  (some { h := h', dcrIssuers := st.dcrIssuers ++ regd }, { model := showResult r h'.served, violated := viol })
+    | some o => let (cl, regd) := monitor c.m st.dcrIssuers o; (cl.map Clause.text, regd)
+  (some { h := h', dcrIssuers := st.dcrIssuers ++ regd }, { model := modelText, violated := viol })
 
 def engine : Engine (Option HState) where
   init := none
@@ -430,11 +301,11 @@ def engine : Engine (Option HState) where
     | ["reset"] => (none, { model := "ok" })
     | "www" :: hexes => (st, { model := wwwModel hexes })
     | ["wwwfuzz", _] =>
-      (st, { model := "nopanic", violated := if impl == "nopanic" then none else some "C15: ParseWWWAuthenticate panics" })
+      (st, { model := fuzzOk, violated := if chkFuzz impl then some "C15: ParseWWWAuthenticate panics" else none })
     | "auth" :: rest =>
       match parseCase none rest with
       | none => (none, { model := "bad-op" })
-      | some c => roundStep { h := { cfg := { cimd := c.cfg.cimd, pre := c.cfg.pre, dcr := c.cfg.dcr } } } c impl
+      | some c => roundStep { h := { cfg := { cimd := c.m.cfg.cimd, pre := c.m.cfg.pre, dcr := c.m.cfg.dcr } } } c impl
     | "again" :: rest =>
       match st with
       | none => (none, { model := "no-handler" })
